@@ -31,6 +31,7 @@ def identToSexp : Except NameErr (Option Ty) → Sexp
   | .ok t => .list [.atom "ok", Ty.optToSexp t]
   | .error .ambiguous => .atom "ambiguous"
   | .error .unknown => .atom "unknown"
+  | .error .methodValue => .atom "method-value"
 
 def tyBoolToSexp : Option (Ty × Bool) → Sexp
   | some (t, b) => .list [.atom "ok", t.toSexp, Sexp.bool b]
@@ -75,10 +76,10 @@ def handleTypes : List Sexp → Sexp
       let base := (e.ty.map Ty.derefOnce).getD (.struct [])
       .list (names.map fun n =>
         .list [Sexp.str n,
-          identToSexp (identType t n),
+          identToSexp (identType d t n),
           tyBoolToSexp (funcTarget t n),
-          optOptTyToSexp (fetchEnv e n),
-          tyBoolToSexp (match e.ty with | some ty => fetchFnTy ty e.entries n | none => none),
+          optOptTyToSexp (fetchEnv d e n),
+          tyBoolToSexp (match e.ty with | some ty => fetchFnTy d ty e.entries n | none => none),
           (if base.kind == .struct then resFieldToSexp (reflField base n) else .atom "na"),
           Sexp.bool (doc.contains n)])
     | _, _, _ => bad
@@ -90,8 +91,8 @@ def handleTypes : List Sexp → Sexp
         .list [Sexp.str n,
           optTyToSexp (fieldType d (t.depth + 1) t n),
           tyBoolToSexp (methodType d (t.depth + 1) t n),
-          optTyToSexp (fetchTy t n),
-          tyBoolToSexp (fetchFnTy t [] n),
+          optTyToSexp (fetchTy d t n),
+          tyBoolToSexp (fetchFnTy d t [] n),
           (if base.kind == .struct then resFieldToSexp (reflField base n) else .atom "na")])
     | _, _, _ => bad
   | _ => bad
